@@ -12,7 +12,7 @@ import (
 
 func init() {
 	register("C02", checkC02)
-	notDecided["C02"] = "the result node-sets of predicate-bearing paths; nested predicates over arbitrary trees; that position() counts along the axis direction (this is the direction of the axis normaliser, decided under C01 R01.2). (K1 — predicates evaluated on the merged node-set of a step instead of per context node — was repaired in /repo by commit 575c3ed; R02.6 holds since.)"
+	notDecided["C02"] = "the result node-sets of predicate-bearing paths; nested predicates over arbitrary trees; that position() counts along the axis direction (this is the direction of the axis normaliser, decided under C01 R01.2)."
 	register("C18", checkC18)
 	notDecided["C18"] = "the set equation P/R = union of R(n) on concrete documents (it failed for positional predicates until fix 575c3ed, see R02.6); results of sub-queries for concrete nodes."
 }
